@@ -58,6 +58,16 @@ REUSE = [
     ("e := 10.try.{|x| x * 2}\na := e.{|x| x + 1}\nb := e.{|x| x / 0}\n[a.val, b.err.type._name, e.val, a.val]", '[21, "ZeroDivisionErr", 20, 21]'),
     ("e := 1.try./(0)\na := e.+(1)\nb := e.or(5)\n[a.err.type._name, b, e.err.type._name, e.val]", '["ZeroDivisionErr", 5, "ZeroDivisionErr", nil]'),
     ("e := nil.try\n[e.val, e.err, e.err?, e.val?, e.A]", "[nil, nil, false, false, [nil, nil]]"),
+    # a property-call step whose name the wrapped value does not have is a FAILED step (the kind of error is NoPropErr; only its
+    # message is the recorded finding): err? is true, no value, `or` gives the default, later steps are skipped, abandon re-raises
+    ("e := 1.try.nopeprop\n[e.err?, e.val?, e.val, e.or(9), e.err.kindOf?(NoPropErr)]", "[true, false, nil, 9, true]"),
+    ("e := 1.try.nopeprop(2, k: 3)\n[e.err?, e.val, e.err.kindOf?(NoPropErr)]", "[true, nil, true]"),
+    ('e := "abc".try.nosuch(1).{|x| "later".p; x}.{|x| "later2".p; x}\n[e.err?, e.err.kindOf?(NoPropErr), e.A[0]]', "[true, true, nil]"),
+    ('e := "config".try.uc.trimm.len\n[e.err?, e.val, e.or(0), e.err.kindOf?(NoPropErr)]', "[true, nil, 0, true]"),
+    ('e := "config".try.uc.len.nosuch\n[e.err?, e.val, e.err.kindOf?(NoPropErr)]', "[true, nil, true]"),
+    ('step := {|| "abc".try.nosuchMethod(1, 2).abandon}\ne := "".try.{step()}\n[e.err?, e.err.kindOf?(NoPropErr)]', "[true, true]"),
+    ('e := {a: 1}.try.b\n[e.err?, e.val]', "[true, nil]"),
+    ('e := [1, 2].try.nosuch.len\n[e.err?, e.val, e.catch(NoPropErr) {|x| 7}.val]', "[true, nil, 7]"),
 ]
 
 
@@ -141,8 +151,8 @@ def main(chk):
             continue
         if acc.startswith("reuse:"):
             want = acc[6:]
-            if not (imp["kind"] == "value" and imp.get("repr") == want):
-                viol.append(("an Either kept in a variable and used twice: `%s` gives %s, expected %s" % (
+            if not (imp["kind"] == "value" and imp.get("repr") == want and imp.get("out", "") == ""):
+                viol.append(("hand-derived Either program (an Either used twice / a step naming an absent property): `%s` gives %s, expected %s" % (
                     prog.strip().replace("\n", "; "), imp.get("repr") or (imp.get("errk"), imp.get("errmsg")), want),
                     {"program": prog, "expected": want, "impl": {k: imp.get(k) for k in ("kind", "repr", "errk", "errmsg")}}, "C13:reuse"))
             elif r["verdict"] == "disagree":
